@@ -5,7 +5,9 @@ under /verif/seeded/<P>-<n>/ (patch.diff, demo.py, meta.json)."""
 import json, os, re, shutil, subprocess, sys, tempfile
 
 P, n = sys.argv[1], sys.argv[2]
-src = f"/tmp/seedout/{P}"
+srcroot = sys.argv[3] if len(sys.argv) > 3 else "/tmp/seedout"
+outn = sys.argv[4] if len(sys.argv) > 4 else n
+src = f"{srcroot}/{P}"
 patch, demo = f"{src}/change{n}.diff", f"{src}/demo{n}.py"
 W = tempfile.mkdtemp(prefix="seedconf_")
 os.rmdir(W)
@@ -14,6 +16,7 @@ assert run(f"git -C /repo worktree add -q --detach {W} HEAD").returncode == 0
 meta = {"property": P, "source": "independent sub-agent given only the property text and a scratch worktree"}
 try:
     env = dict(os.environ, PYTHONPATH=W)
+    meta["round"] = 2 if "seedout2" in srcroot else 1
     d = open(demo).read().replace(f"/tmp/seedwt/{P}", W)
     open(f"{W}/_demo.py", "w").write(d)
     r0 = run(f"cd {W} && /venv/bin/python _demo.py", env=env, timeout=900)
@@ -42,7 +45,7 @@ try:
     meta["confirmed"] = ok
     meta["detected"] = c.returncode == 1
     if ok:
-        out = f"/verif/seeded/{P}-{n}"
+        out = f"/verif/seeded/{P}-{outn}"
         os.makedirs(out, exist_ok=True)
         shutil.copy(patch, f"{out}/patch.diff")
         shutil.copy(demo, f"{out}/demo.py")
